@@ -44,6 +44,19 @@ PROPS = {
         "design_ref": "DESIGN.md section 6 C07",
         "assumptions": "L3",
     },
+    "C04": {
+        "units": ["c04_error_tree", "l1_error_api"],
+        "level_text": "ErrorKind::len / Error::len / at / prepend_at / into_vec / flatten / multiple / new are proved on their real bodies against a tree oracle over the real datatype "
+                      "(leaves, flat with full outer-to-inner paths); count = number of leaves, flatten yields exactly the leaves in order, idempotence and len(flatten)=len are proved lemmas.",
+        "level_note": "Trusted: rewrite R2 (iterator adapter chains in len/into_vec replaced by their defining loops), Vec/String clone and extend contracts, Display text (R11). Not covered: Display rendering, IntoIterator, syn::Error conversion.",
+        "design_ref": "DESIGN.md section 6 C04",
+        "assumptions": [
+            "R2: `items.iter().map(Error::len).sum()` and `errors.into_iter().flat_map(|error| ..).collect()` are replaced by their defining loops; the closure body is kept verbatim",
+            "usize sums in len() need leaves <= usize::MAX (stated as a precondition)",
+            "Vec<String>::clone yields an equal vector; Vec::extend(Vec) appends in order (std, assumed)",
+        ],
+        "not_covered": ["Display for Error/ErrorKind (message text)", "IntoIterator for Error (std iterator types)", "From<Error> for syn::Error / write_errors (one diagnostic per leaf)"],
+    },
     "C05": {
         "units": ["c05_accumulator", "l1_error_api"],
         "assumptions": [
